@@ -497,6 +497,17 @@ func TestVerifC09(t *testing.T) {
 			r.Sample(map[string]any{"options": "configVersion=v0", "contexts_checked": seen})
 		}
 	}
+	if (vres.Mine(int64(len(cases)+1)) || r.Replaying()) && r.Want("combined-array") {
+		sig, what := c09runCombined()
+		r.Eval(1)
+		if sig != "" {
+			r.Violation(sig, "combined-array", what, nil)
+			r.Outcome("V:"+sig, true)
+		} else {
+			r.State("combined-array")
+			r.Outcome("combined-array", true)
+		}
+	}
 	for i, o := range cases {
 		if !(vres.Mine(int64(i)) || r.Replaying()) {
 			continue
